@@ -479,3 +479,22 @@ func callEntries(c *core.Ctx, rel string, closeOnCancel, closeWithCtxErr, failIf
 	}
 	return out
 }
+
+// armScope returns the node itself and the bodies of the functions of package p called directly inside it (one level):
+// what an arm does, whether inline or through a helper.
+func armScope(p *packages.Package, n ast.Node) []ast.Node {
+	out := []ast.Node{n}
+	seen := map[*ast.FuncDecl]bool{}
+	ast.Inspect(n, func(x ast.Node) bool {
+		if call, ok := x.(*ast.CallExpr); ok {
+			if f := core.Callee(p.TypesInfo, call); f != nil && f.Pkg() == p.Types {
+				if hd := declOf(p, f); hd != nil && !seen[hd] {
+					seen[hd] = true
+					out = append(out, hd.Body)
+				}
+			}
+		}
+		return true
+	})
+	return out
+}
